@@ -233,6 +233,44 @@ Theorem json_body : forall addr sids ads p meth params js t d,
 Proof. exact json_body_l. Qed.
 Print Assumptions json_body.
 
+(* end to end: EVERY successful request through a connection of a reachable state whose whole chain holds
+   exactly one authenticating adapter carries exactly one Authorization header, with that adapter's value
+   (that the caller did not pass the key himself follows from success: the adapter asserts it) *)
+Theorem request_one_auth : forall st i c q ra cap ads1 a ads2 ak sk v,
+  reachable st -> nth_error (conns st) i = Some c -> resolve st q = Ok ra ->
+  flat_own c = ads1 ++ a :: ads2 -> auth_value a = Some (ak, sk, v) ->
+  Forall (fun x => is_auth x = false) ads1 -> Forall (fun x => is_auth x = false) ads2 ->
+  snd (step st (ORequest i q)) = Ok (OReq cap) ->
+  dict_get basic_set_key (q_headers cap) = Some v /\ NoDup (map fst (q_headers cap)).
+Proof. intros st i c q ra cap ads1 a ads2 ak sk v R. apply request_one_auth_l. apply reachable_wf. exact R. Qed.
+Print Assumptions request_one_auth.
+
+(* ... and goes to address + prefixes of the whole chain (inner ones outermost) + path (+ '?' + url-encoded
+   params), with the body encoded by its type, the method upper-cased or defaulted, the response processors
+   run in reverse order of the chain *)
+Theorem request_shape : forall st i c q ra cap,
+  reachable st -> nth_error (conns st) i = Some c -> resolve st q = Ok ra ->
+  snd (step st (ORequest i q)) = Ok (OReq cap) ->
+  exists params data,
+    read_params (heap_of st) (a_params ra) = Ok params /\ read_body (heap_of st) (a_data ra) = Ok data /\
+    let p := fold_left (fun s pre => join_prefix pre s) (prefixes (flat_own c)) (a_path ra) in
+    let addr := fst (conn_root c) in
+    q_url cap = addr ++ (if negb (ends_with slash addr) && negb (starts_with slash (p ++ query params)) then [slash] else [])
+                     ++ p ++ query params /\
+    q_data cap = match data with
+                 | None => None
+                 | Some (BBytes b) => Some b
+                 | Some (BStr s) => Some (utf8 s)
+                 | Some (BJson js _) => Some (utf8 js)
+                 end /\
+    q_method cap = match a_meth ra with
+                   | Some m => if nonempty m then upper m else default_method data
+                   | None => default_method data
+                   end /\
+    q_resp cap = rev (tags (flat_own c)).
+Proof. intros st i c q ra cap R. apply request_shape_l. apply reachable_wf. exact R. Qed.
+Print Assumptions request_shape.
+
 (* ------------------------------------------------------------------ *)
 (* add_adapter as an operation like any other (C17/LemmasAdd.v).        *)
 (* [reachable_any st]: st is produced from the empty state by ANY       *)
